@@ -113,6 +113,19 @@ impl OsIpcSender {
             final(tls).de_channels@ == old(tls).de_channels@, final(tls).de_regions@ == old(tls).de_regions@,
             final(tls).sent == old(tls).sent.push(SentMsg { bytes: data@, channels: channels@, regions: shared_memory_regions@ }),
     { unimplemented!() }
+    // the same platform send seen without the conversion (explicit `match` + `From::from` instead of `?`)
+    #[verifier::external_body]
+    pub fn send(&self, data: &[u8], channels: Vec<OsIpcChannel>, shared_memory_regions: Vec<OsIpcSharedMemory>, tls: &mut Tls) -> (r: Result<(), UnixError>)
+        ensures
+            final(tls).ser_channels@ == old(tls).ser_channels@, final(tls).ser_regions@ == old(tls).ser_regions@,
+            final(tls).de_channels@ == old(tls).de_channels@, final(tls).de_regions@ == old(tls).de_regions@,
+            final(tls).sent == old(tls).sent.push(SentMsg { bytes: data@, channels: channels@, regions: shared_memory_regions@ }),
+    { unimplemented!() }
+}
+// From<UnixError> for bincode::Error (src/platform/unix/mod.rs): io::Error::from(unix_error).into()
+impl From<UnixError> for Box<bincode::ErrorKind> {
+    #[verifier::external_body]
+    fn from(e: UnixError) -> (r: Box<bincode::ErrorKind>) { unimplemented!() }
 }
 impl OsOpaqueIpcChannel {
     #[verifier::external_body]
